@@ -956,3 +956,130 @@ Qed.
 
 Lemma storedb_mark_failed_all t order now s : storedb t (mark_failed_all order now s) = storedb t s.
 Proof. apply storedb_ids, ids_mark_failed_all. Qed.
+
+(* ------------------------------------------------------------------ executed until it succeeds *)
+
+Lemma poll_progress_shape c now cl qi ii ir ad t :
+  cfg_ok c = true -> 0 <? ir = true ->
+  forall snap sto log,
+  (forall r, In r snap -> due (c_ri c) now r = true /\ storedb (r_id r) sto = true) ->
+  In t (map r_id snap) ->
+  exists ops sto' rest outs l,
+    run (mks c sto now (Some (mkm cl qi [] ii ir [] ad (Some (PLoop snap)))) log) ops =
+      (mks c sto' now (Some (mkm cl qi [] ii (ir - 1) [mkw QRe t WRun] ad (Some (PLoop rest))))
+           (EStart t :: l ++ log), outs) /\
+    legal outs /\ (forall e, In e l -> ev_task e <> t) /\ ids sto' = ids sto.
+Proof.
+  intros C I. induction snap as [|r rest IH]; intros sto log H Hin; [destruct Hin|].
+  destruct (H r (or_introl eq_refl)) as [D S].
+  destruct (N.eq_dec (r_id r) t) as [E|E].
+  - exists round_exec, (mark_pending (r_id r) sto), rest. eexists. exists [].
+    rewrite (round_exec_run c sto now cl qi ii ir ad r rest log C I D S). rewrite E.
+    split; [reflexivity|]. split; [|split; [intros e []|apply ids_mark_pending]].
+    intros K. cbn in K. repeat (destruct K as [K|K]; [discriminate|]). exact K.
+  - destruct (round_fail_run c sto now cl qi ii ir ad r rest log C I D S) as [sto' [o5 [R [O5 Ids]]]].
+    destruct (IH sto' (ERet (r_id r) false :: EStart (r_id r) :: log)) as [ops [sto2 [rest2 [outs [l [R2 [L2 [Ne Ids2]]]]]]]].
+    + intros x Hx. destruct (H x (or_intror Hx)) as [D' S']. split; [assumption|].
+      rewrite (storedb_ids sto' sto) by assumption. assumption.
+    + destruct Hin as [Hin|Hin]; [contradiction|assumption].
+    + exists (round_fail (r_id r) ++ ops), sto2, rest2. eexists. exists (l ++ [ERet (r_id r) false; EStart (r_id r)]).
+      rewrite run_app, R, R2. rewrite <- app_assoc. split; [reflexivity|]. split; [|split].
+      * apply legal_app; [|assumption]. intros K. cbn in K.
+        repeat (destruct K as [K|K]; [try discriminate; try contradiction|]); exact K.
+      * intros e He. apply in_app_or in He. destruct He as [He|He]; [auto|].
+        cbn in He. destruct He as [<-|[<-|[]]]; cbn; assumption.
+      * rewrite Ids2. assumption.
+Qed.
+
+(* one more execution of a stored task, with the verdict chosen by the environment, is always
+   possible; a failure keeps the task, a success removes it *)
+Theorem exec_once s t ok :
+  Inv s -> cfg_ok (s_cfg s) = true -> storedb t (s_store s) = true ->
+  exists ops s' outs l, run s ops = (s', outs) /\ legal outs /\
+    s_log s' = ERet t ok :: EStart t :: l ++ s_log s /\ (forall e, In e l -> ev_task e <> t) /\
+    storedb t (s_store s') = negb ok /\ s_cfg s' = s_cfg s.
+Proof.
+  destruct s as [c sto now mg log]. intros [Hn _] C S. cbn [s_cfg s_store s_log] in *.
+  set (order := pending_ids sto).
+  assert (O : order_ok order (pending_ids sto) = true)
+    by (apply order_ok_refl; unfold order, pending_ids; apply NoDup_ids_filter; assumption).
+  destruct (restart_recovers (mks c sto now mg log) order O) as [R1 [R2 [R3 [R4 [R5 [R6 R7]]]]]].
+  destruct (run (mks c sto now mg log) [OpCrash; OpStart order]) as [s1 o1] eqn:Run1.
+  cbn [fst snd s_store s_cfg s_log s_now] in *. destruct s1 as [c1 sto1 now1 mg1 log1].
+  cbn [s_store s_cfg s_log s_now s_mgr] in *. subst c1 now1 log1 mg1 o1.
+  assert (Hn1 : NoDup (ids sto1)) by (rewrite R2; assumption).
+  set (big := c_ri c + 1 + span sto1).
+  assert (F : failed_ids sto1 = ids sto1).
+  { unfold failed_ids. rewrite filter_all; [reflexivity|]. intros x Hx. unfold is_failed. rewrite (R3 x Hx). reflexivity. }
+  assert (Run2 : run (mks c sto1 now (Some (fresh_mgr c)) log) [OpTick big; OpPollGet (ids sto1)] =
+                 (mks c sto1 (now + big) (Some (mkm false [] [] (c_inw c) (c_rew c) [] [] (Some (PLoop sto1)))) log, [ODone; ODone])).
+  { cbn [run]. unfold step at 1. cbn [s_cfg s_store s_now s_mgr s_log].
+    unfold step. cbn [s_cfg s_store s_now s_mgr s_log fresh_mgr m_poll]. rewrite F, (order_ok_refl _ Hn1).
+    rewrite (get_rows_ids sto1 Hn1). reflexivity. }
+  destruct (poll_progress_shape c (now + big) false [] (c_inw c) (c_rew c) [] t C (cfg_ok_rew c C) sto1 sto1 log)
+    as [ops [sto2 [rest [outs [l [R [L [Ne Ids]]]]]]]].
+  - intros r Hr. split; [apply due_after; assumption|]. apply storedb_In. apply in_map. assumption.
+  - change (In t (ids sto1)). rewrite R2. apply storedb_In. assumption.
+  - assert (S2 : storedb t sto2 = true) by (rewrite (storedb_ids sto2 sto1), (storedb_ids sto1 sto); assumption).
+    assert (I1 : c_rew c - 1 + 1 = c_rew c) by (pose proof (cfg_ok_rew c C) as X; apply N.ltb_lt in X; lia).
+    exists ([OpCrash; OpStart order] ++ [OpTick big; OpPollGet (ids sto1)] ++ ops ++ [OpExecRet t ok; OpExecFin t]).
+    rewrite run_app, Run1, run_app, Run2, run_app, R.
+    cbn [run].
+    unfold step at 1. nf. rewrite N.eqb_refl. cbn [andb]. nf. cbn [app].
+    unfold step at 1. nf. rewrite N.eqb_refl. cbn [andb]. nf. cbn [app]. rewrite I1.
+    assert (LG : forall x y, x <> OIllegal -> y <> OIllegal -> legal (ODone :: ODone :: ODone :: ODone :: outs ++ [x; y])).
+    { intros x y Hx Hy K. cbn [In] in K. repeat (destruct K as [K|K]; [discriminate|]).
+      apply in_app_or in K. destruct K as [K|K]; [exact (L K)|]. cbn [In] in K.
+      destruct K as [K|[K|[]]]; auto. }
+    destruct ok.
+    + eexists. eexists. exists l. split; [reflexivity|]. split; [|split; [reflexivity|split; [assumption|split; [|reflexivity]]]].
+      * apply LG; discriminate.
+      * cbn [s_store negb]. rewrite storedb_remove, N.eqb_refl. reflexivity.
+    + eexists. eexists. exists l. split; [reflexivity|]. split; [|split; [reflexivity|split; [assumption|split; [|reflexivity]]]].
+      * apply LG; [discriminate|]. rewrite S2. discriminate.
+      * cbn [s_store negb]. rewrite storedb_mark_failed. assumption.
+Qed.
+
+(* n failed executions of t, newest first *)
+Fixpoint fails (t : N) (n : nat) : list ev :=
+  match n with O => [] | S n' => ERet t false :: EStart t :: fails t n' end.
+Definition about (t : N) (l : list ev) : list ev := filter (fun e => ev_task e =? t) l.
+
+Lemma fails_snoc t n : fails t n ++ [ERet t false; EStart t] = fails t (S n).
+Proof. induction n as [|n IH]; [reflexivity|]. cbn [fails app]. rewrite IH. reflexivity. Qed.
+
+Lemma about_none t l : (forall e, In e l -> ev_task e <> t) -> about t l = [].
+Proof.
+  induction l as [|e l IH]; intros H; [reflexivity|]. cbn.
+  destruct (ev_task e =? t) eqn:E; [apply N.eqb_eq in E; exfalso; apply (H e); [left; reflexivity|assumption]|].
+  apply IH. intros; apply H; right; assumption.
+Qed.
+
+Lemma about_app t a b : about t (a ++ b) = about t a ++ about t b.
+Proof. apply filter_app. Qed.
+
+(* C30 "executed until an execution succeeds", the part that holds without a scheduler: however
+   often the executor fails (n times), the continuation in which the task is retried each time
+   exists; in it the task is executed n+1 times and leaves the store after the success only.
+   MISSING (the fairness assumption): that the scheduler actually takes such a continuation, i.e.
+   the poller and a retry worker run again and again AND the task finds room in the retry queue
+   when its turn comes (thread fairness alone does not give the latter, see starvation below). *)
+Theorem until_success s t n :
+  Inv s -> cfg_ok (s_cfg s) = true -> storedb t (s_store s) = true ->
+  exists ops s' outs l, run s ops = (s', outs) /\ legal outs /\ s_log s' = l ++ s_log s /\
+    about t l = ERet t true :: EStart t :: fails t n /\ storedb t (s_store s') = false.
+Proof.
+  revert s. induction n as [|n IH]; intros s HI C S.
+  - destruct (exec_once s t true HI C S) as [ops [s' [outs [l [R [L [Lg [Ne [St _]]]]]]]]].
+    exists ops, s', outs, (ERet t true :: EStart t :: l). repeat split; try assumption.
+    unfold about. cbn. rewrite N.eqb_refl. fold (about t l). rewrite (about_none t l Ne). reflexivity.
+  - destruct (exec_once s t false HI C S) as [ops [s1 [outs [l [R [L [Lg [Ne [St Cf]]]]]]]]].
+    assert (HI1 : Inv s1) by (pose proof (inv_run s ops HI) as X; rewrite R in X; exact X).
+    destruct (IH s1 HI1) as [ops2 [s2 [outs2 [l2 [R2 [L2 [Lg2 [Ab St2]]]]]]]]; [rewrite Cf; assumption|assumption|].
+    exists (ops ++ ops2), s2, (outs ++ outs2), (l2 ++ ERet t false :: EStart t :: l).
+    rewrite run_app, R, R2. repeat split; try assumption.
+    + apply legal_app; assumption.
+    + rewrite Lg2, Lg, <- app_assoc. reflexivity.
+    + rewrite about_app, Ab. unfold about at 1. cbn [filter ev_task]. rewrite N.eqb_refl. fold (about t l).
+      rewrite (about_none t l Ne). cbn [app]. f_equal. f_equal. apply fails_snoc.
+Qed.
